@@ -5,6 +5,7 @@ package checks
 import (
 	"encoding/json"
 	"fmt"
+	"strings"
 	"testing"
 
 	"github.com/theory/sqljson/path/exec"
@@ -73,13 +74,25 @@ func checkComposeFacts(c ComposeCase) (*Violation, composeFacts) {
 		f.skipped = "member_order_open"
 		return nil, f
 	}
+	if idMayEscape(full.Root) {
+		// keyvalue ids are compared modulo the base object: a path that can read an id
+		// (.id, a wildcard over the triple, a second .keyvalue()) is outside the relation
+		f.skipped = "keyvalue_id_may_escape"
+		return nil, f
+	}
 	run := func(pr *prepared, doc any) Outcome { return RunQuery(pr.ctx, pr.p, doc, pr.opts(false)...) }
+	runSilent := func(pr *prepared, doc any) Outcome { return RunQuery(pr.ctx, pr.p, doc, pr.opts(true)...) }
 	whole := run(prFull, prFull.doc)
-	if whole.Panic != "" || isD9(whole.Err) {
+	wholeSilent := runSilent(prFull, prFull.doc)
+	if whole.Panic != "" || isD9(whole.Err) || wholeSilent.Panic != "" || isD9(wholeSilent.Err) {
 		f.skipped = "panic_or_D9"
 		return nil, f
 	}
-	for i := 1; i < len(steps); i++ {
+	firstSplit := 1
+	if c.Head.IsExprHead() {
+		firstSplit = 0 // the head itself produces the prefix items
+	}
+	for i := firstSplit; i < len(steps); i++ {
 		pfx, sfx := steps[:i], steps[i:]
 		if c.Strict && linkChain(pfx).Has(func(n *Node) bool { return n.K == KAny }) {
 			continue // steps following .** in strict mode are excluded by the property
@@ -105,14 +118,17 @@ func checkComposeFacts(c ComposeCase) (*Violation, composeFacts) {
 			}
 			continue
 		}
-		var want []string
+		var want, wantSilent []string
 		wantClass := EOK
 		for _, x := range base.Items {
 			o := run(prS, x)
-			if o.Panic != "" || isD9(o.Err) {
+			os := runSilent(prS, x)
+			if o.Panic != "" || isD9(o.Err) || os.Panic != "" || isD9(os.Err) {
 				wantClass = "?"
 				break
 			}
+			// with WithSilent the items found before the first failure are returned
+			wantSilent = append(wantSilent, RenderSeq(os.Items, true)...)
 			if o.Class != EOK {
 				wantClass = o.Class
 				break
@@ -130,6 +146,14 @@ func checkComposeFacts(c ComposeCase) (*Violation, composeFacts) {
 		}
 		if wantClass == EOK && !sameSeq(want, RenderSeq(whole.Items, true)) {
 			return violf("%s: concatenation over the prefix items %v is %v but the whole path returns %v", at, RenderSeq(base.Items, true), want, RenderSeq(whole.Items, true)), f
+		}
+		// the same composition with errors suppressed: the items up to the first failing prefix item
+		if wantClass == EHard {
+			if wholeSilent.Class != EHard {
+				return violf("%s with WithSilent: the suffix fails with a non-suppressible error on a prefix item but the whole path returns %s", at, wholeSilent), f
+			}
+		} else if wholeSilent.Class != EOK || !sameSeq(wantSilent, RenderSeq(wholeSilent.Items, true)) {
+			return violf("%s with WithSilent: concatenation over the prefix items %v up to the first failure is %v but the whole path returns %s", at, RenderSeq(base.Items, true), wantSilent, wholeSilent), f
 		}
 	}
 	// a path that starts from a variable or a literal = the same steps from $ on that value
@@ -168,6 +192,20 @@ func checkComposeFacts(c ComposeCase) (*Violation, composeFacts) {
 		}
 	}
 	return nil, f
+}
+
+// IsExprHead: the head is a parenthesised operator expression rather than $, a variable or a literal.
+func (n *Node) IsExprHead() bool { return n.K == KUn || n.K == KBin }
+
+func idMayEscape(root *Node) bool {
+	kv := 0
+	reads := root.Has(func(x *Node) bool {
+		if x.K == KMethod && x.S == "keyvalue" {
+			kv++
+		}
+		return x.K == KAnyKey || x.K == KAny || (x.K == KKey && x.S == "id")
+	})
+	return kv >= 2 || (kv == 1 && reads)
 }
 
 // ContextCase: re-use of @, last and $ after a nested construct.
@@ -238,6 +276,58 @@ var checkContext = register("c09.context", func(c ContextCase) *Violation {
 		if ob.Class != EOK || !sameSeq(want, RenderSeq(ob.Items, true)) {
 			return violf("last is disturbed by a nested subscript: %q -> %s, but %q -> %v and %q -> %v on %s", both.Canon(), ob, pa.Canon(), RenderSeq(oa.Items, true), pb.Canon(), RenderSeq(o2.Items, true), c.Doc)
 		}
+	case "at_sub":
+		// after a nested filter, @ in a later subscript of the same chain denotes the outer
+		// item: $[*] ? (@.o ? (A).arr[f(@.pick)] op lit) keeps exactly the rows x for which
+		// $ ? (@.o ? (A).arr[f(v)] op lit) keeps x, v being the literal value of x.pick
+		mkPath := func(prefix *Node, pick *Node) *Path {
+			var sub Sub
+			switch c.Depth {
+			case 0:
+				sub = Sub{From: pick}
+			case 1:
+				sub = Sub{From: &Node{K: KBin, S: "-", A: &Node{K: KLast}, B: pick}}
+			case 2:
+				sub = Sub{From: pick, To: &Node{K: KLast}}
+			default:
+				sub = Sub{From: &Node{K: KInt, I: 0}, To: pick}
+			}
+			inner := &Node{K: KCur, Next: &Node{K: KKey, S: "o", Next: &Node{K: KFilter, A: c.A.Clone(), Next: &Node{K: KKey, S: "arr", Next: &Node{K: KIdx, Subs: []Sub{sub}}}}}}
+			cond := &Node{K: KBin, S: c.B.S, A: inner, B: c.B.B.Clone()}
+			return &Path{Strict: c.Strict, Root: &Node{K: KRoot, Next: appendChain(prefix, &Node{K: KFilter, A: cond})}}
+		}
+		whole := mkPath(&Node{K: KAnyArr}, &Node{K: KCur, Next: &Node{K: KKey, S: "pick"}})
+		ow, okw := q(whole)
+		rows, okr := q(&Path{Strict: c.Strict, Root: &Node{K: KRoot, Next: &Node{K: KAnyArr}}})
+		if !okw || !okr || rows.Class != EOK {
+			return nil
+		}
+		var want []string
+		wantClass := EOK
+		for _, x := range rows.Items {
+			m, _ := x.(map[string]any)
+			lit := litFor(m["pick"])
+			if lit == nil {
+				return nil
+			}
+			p := mkPath(nil, lit)
+			pp, _, pan := ParseSafe(p.Canon())
+			if pan != "" || pp == nil {
+				return nil
+			}
+			o := RunQuery(c.Opts.Ctx(), pp, x)
+			if o.Panic != "" || isD9(o.Err) {
+				return nil
+			}
+			if o.Class != EOK {
+				wantClass = o.Class
+				break
+			}
+			want = append(want, RenderSeq(o.Items, true)...)
+		}
+		if ow.Class != wantClass || (wantClass == EOK && !sameSeq(want, RenderSeq(ow.Items, true))) {
+			return violf("@ after a nested filter does not denote the outer item: %q -> %s on %s, but row by row with the value of @.pick substituted the rows kept are %v (class %s)", whole.Canon(), ow, c.Doc, want, wantClass)
+		}
 	case "root":
 		// inside nested filters $ denotes the whole document: @ op E($) == @ op literal(value of E)
 		pe := &Path{Strict: c.Strict, Root: c.A.Clone()}
@@ -283,7 +373,7 @@ func TestC09(t *testing.T) {
 	ev := newEv(t, "C09")
 	ev.replayTier(t)
 	ev.rapidProp(t, "compose", func(rt *rapid.T) {
-		cfg := GenCfg{MaxNodes: 12, HardErrPct: 6, NoKeyvalue: true, NoRoot: true, NoWildKey: rapid.IntRange(0, 9).Draw(rt, "nowild") < 7}.withDefaults()
+		cfg := GenCfg{MaxNodes: 12, HardErrPct: 6, NoKeyvalue: rapid.IntRange(0, 9).Draw(rt, "nokv") < 5, NoRoot: true, NoWildKey: rapid.IntRange(0, 9).Draw(rt, "nowild") < 7}.withDefaults()
 		g := &pgen{t: rt, c: cfg}
 		strict := g.chance(45, "strict")
 		doc := GenDoc(rt, DocCfg{Rich: rapid.IntRange(0, 9).Draw(rt, "rich") < 7}, "doc")
@@ -292,7 +382,24 @@ func TestC09(t *testing.T) {
 		opts.UseNumber = useNumber
 		head := &Node{K: KRoot}
 		var walkDoc any = MustDecode(doc.Text(), useNumber)
-		switch g.choose("head", 70, 15, 15) {
+		switch g.choose("head", 52, 12, 12, 24) {
+		case 3:
+			// a parenthesised operator expression as the producer of the prefix items
+			w, _ := GenWalk(rt, walkDoc, 2, strict, "hw")
+			operand := &Node{K: KRoot, Next: w}
+			if g.chance(50, "hunwrap") {
+				operand.Next = appendChain(operand.Next, &Node{K: KAnyArr})
+			}
+			switch g.choose("hexpr", 50, 35, 15) {
+			case 0:
+				head = &Node{K: KUn, S: g.pick([]string{"-", "+"}, "hsgn"), A: operand}
+			case 1:
+				head = &Node{K: KBin, S: g.pick(arithOps, "hop"), A: operand, B: &Node{K: KInt, I: int64(1 + g.n(3, "hlit"))}}
+			default:
+				head = &Node{K: KBin, S: g.pick(cmpOps, "hcmp"), A: operand, B: g.literal()}
+			}
+			head = Normalize(head)
+			walkDoc = nil
 		case 1:
 			head = &Node{K: KVar, S: g.pick([]string{"x", "y", "z"}, "hv")}
 			if txt, ok := opts.Vars[head.S]; ok {
@@ -303,11 +410,20 @@ func TestC09(t *testing.T) {
 			walkDoc = nil
 		}
 		var chain *Node
+		var reach []any
 		if walkDoc != nil && g.chance(75, "walk") {
-			chain, _ = GenWalk(rt, walkDoc, 3, strict, "w")
+			chain, reach = GenWalk(rt, walkDoc, 3, strict, "w")
 		}
 		g.budget = 2 + g.n(8, "size")
 		tail := g.chain(gctx{}, 1+g.n(3, "tail"))
+		for _, r := range reach {
+			if m, ok := r.(map[string]any); ok && len(m) >= 2 && !cfg.NoKeyvalue && g.chance(60, "kvdirect") {
+				// the members of a reached object as a sequence of triples: the suffix sees the
+				// values one by one, in key order, and may fail on one that is not the last
+				tail = &Node{K: KMethod, S: "keyvalue", Next: &Node{K: KKey, S: g.pick([]string{"value", "value", "key"}, "kvk"), Next: tail}}
+				break
+			}
+		}
 		chain = appendChain(chain, tail)
 		c := ComposeCase{Strict: strict, Head: head, Chain: Normalize(chain), Doc: doc.Text(), Opts: opts}
 		v, f := checkComposeFacts(c)
@@ -317,8 +433,13 @@ func TestC09(t *testing.T) {
 			ev.Label("skipped:" + f.skipped)
 		} else {
 			ev.Label(fmt.Sprintf("head:%s", head.K))
+			if head.IsExprHead() {
+				ev.Label("head:expression")
+			}
 		}
-		full := &Path{Strict: strict, Root: &Node{K: head.K, S: head.S, I: head.I, F: head.F, Next: c.Chain}}
+		fh := head.Clone()
+		fh.Next = c.Chain
+		full := &Path{Strict: strict, Root: fh}
 		ev.Sample("compose:"+head.K, map[string]any{"path": full.Canon(), "doc": c.Doc, "splits": f.splits})
 		ev.Check(rt, "c09.compose", c, v)
 	})
@@ -330,7 +451,32 @@ func TestC09(t *testing.T) {
 		useNumber := rapid.Bool().Draw(rt, "num")
 		d := MustDecode(doc.Text(), useNumber)
 		c := ContextCase{Strict: strict, Doc: doc.Text(), Opts: Opts{UseNumber: useNumber, TZ: true}}
-		switch g.choose("kind", 40, 30, 30) {
+		switch g.choose("kind", 30, 25, 25, 20) {
+		case 3:
+			c.Kind = "at_sub"
+			// rows whose own pick differs from the pick of the nested object
+			nrows := 1 + g.n(3, "nrows")
+			var rows []string
+			for r := 0; r < nrows; r++ {
+				alen := 1 + g.n(4, "alen")
+				arr := make([]string, alen)
+				for k := range arr {
+					arr[k] = fmt.Sprint(10 * (1 + g.n(4, "aval")))
+				}
+				rows = append(rows, fmt.Sprintf(`{"o":{"ok":%v,"arr":[%s],"pick":%d},"pick":%d}`, g.chance(70, "ok"), strings.Join(arr, ","), g.n(4, "opick"), g.n(4, "pick")))
+			}
+			c.Doc = "[" + strings.Join(rows, ",") + "]"
+			c.Opts = Opts{UseNumber: useNumber}
+			switch g.choose("acond", 40, 30, 30) {
+			case 0:
+				c.A = &Node{K: KBin, S: "==", A: &Node{K: KCur, Next: &Node{K: KKey, S: "ok"}}, B: &Node{K: KTrue}}
+			case 1:
+				c.A = &Node{K: KBin, S: g.pick(cmpOps, "aop"), A: &Node{K: KCur, Next: &Node{K: KKey, S: "pick"}}, B: &Node{K: KInt, I: int64(g.n(4, "ak"))}}
+			default:
+				c.A = &Node{K: KExists, A: &Node{K: KCur, Next: &Node{K: KKey, S: "arr", Next: &Node{K: KIdx, Subs: []Sub{{From: &Node{K: KInt, I: int64(g.n(4, "ek"))}}}}}}}
+			}
+			c.B = &Node{K: KBin, S: g.pick(cmpOps, "op"), B: &Node{K: KInt, I: int64(10 * (1 + g.n(4, "lit")))}}
+			c.Depth = g.n(4, "form")
 		case 0:
 			c.Kind = "at"
 			var reach []any
